@@ -518,7 +518,10 @@ class ApertureFamily:
             return {'op': 'set', 'name': nm, 'value': val}
         reads = ['bbox', 'area', 'shape', 'isscalar', 'len', 'repr',
                  'to_mask_exact', 'to_mask_center', 'to_mask_subpixel',
-                 'do_photometry', 'area_overlap', 'positions_readback']
+                 'do_photometry', 'area_overlap', 'positions_readback',
+                 'do_photometry_masked', 'area_overlap_masked',
+                 'area_overlap_masked', 'do_photometry_center',
+                 'area_overlap_subpixel_masked']
         return {'op': 'read', 'what': rng.pick(reads)}
 
     @staticmethod
@@ -535,10 +538,16 @@ class ApertureFamily:
             if isinstance(out, list):
                 return [(np.asarray(x.data), plain(x.bbox)) for x in out]
             return (np.asarray(out.data), plain(out.bbox))
-        if what == 'do_photometry':
-            return call(obj.do_photometry, data, method='exact')
-        if what == 'area_overlap':
-            return call(obj.area_overlap, data, method='exact')
+        if what.startswith(('do_photometry', 'area_overlap')):
+            # calls with different masks / methods on the same object: a
+            # later call must not see what an earlier one did to any cache
+            yy, xx = np.indices(data.shape)
+            mask = ((xx + 2 * yy) % 3 == 0) if 'masked' in what else None
+            meth = ('center' if 'center' in what else
+                    'subpixel' if 'subpixel' in what else 'exact')
+            fn = (obj.do_photometry if what.startswith('do_photometry')
+                  else obj.area_overlap)
+            return call(fn, data, mask=mask, method=meth, subpixels=3)
         if what == 'positions_readback':
             return call(lambda: {p: getattr(obj, p) for p in obj._params})
         return call(getattr, obj, what)
@@ -697,7 +706,8 @@ class PSFPhotFamily:
             if not st.cfg['finder'] and rng.chance(0.08):
                 init = None      # reject: no finder and no init_params
             return {'op': 'call', 'image': i, 'mask': rng.chance(0.3),
-                    'error': rng.chance(0.4), 'init': init}
+                    'error': rng.chance(0.4), 'init': init,
+                    'reuse_buffer': rng.chance(0.4)}
         what = rng.pick(['results', 'fit_info', 'init_params',
                          'finder_results', 'fit_params', 'model_image',
                          'residual_image', 'config'])
@@ -787,7 +797,19 @@ class PSFPhotFamily:
             if op['image'] >= len(st.scene['images']):
                 raise Inapplicable('image')
             req = self._request(st, op)
-            out = self._do_call(o, req)
+            if op.get('reuse_buffer'):
+                if getattr(st, 'buf', None) is None:
+                    st.buf = req[0].copy()
+                else:
+                    st.buf[...] = req[0]
+                data, mask, error, init = req
+                out = call(o, st.buf, mask=None if mask is None
+                           else mask.copy(), error=None if error is None
+                           else error.copy(),
+                           init_params=None if init is None else init.copy())
+                st.stats.probe('same_buffer_object_refilled')
+            else:
+                out = self._do_call(o, req)
             st.trace.add('call', digest(out))
             fresh = self.build(st.cfg, st.scene)
             exp = self._do_call(fresh, req)
@@ -903,7 +925,8 @@ class FinderFamily:
             return None
         return {'op': 'call', 'image': rng.randrange(len(
             st.scene['images'])), 'mask': rng.chance(0.3),
-            'method': rng.pick(['call', 'find_stars'])}
+            'method': rng.pick(['call', 'find_stars']),
+            'reuse_buffer': rng.chance(0.5)}
 
     def step(self, st, op):
         if st.dead:
@@ -916,11 +939,25 @@ class FinderFamily:
             data = data * u.Jy
         mask = dec(st.scene['mask']).copy() if op['mask'] else None
 
-        def run(obj):
+        if op.get('reuse_buffer'):
+            # the caller keeps one image buffer and refills it in place
+            # between calls (buf[:] = next_image): same array object, new
+            # pixels - a finder must not remember anything about it
+            if getattr(st, 'buf', None) is None or \
+                    st.buf.shape != data.shape or \
+                    type(st.buf) is not type(data):
+                st.buf = data.copy()
+            else:
+                st.buf[...] = data
+            st.stats.probe('same_buffer_object_refilled')
+
+        def run(obj, own=False):
             fn = obj if op['method'] == 'call' else obj.find_stars
-            return call(fn, data.copy(), mask=None if mask is None
+            arr = st.buf if (own and op.get('reuse_buffer')) else \
+                data.copy()
+            return call(fn, arr, mask=None if mask is None
                         else mask.copy())
-        out = run(st.obj)
+        out = run(st.obj, own=True)
         st.trace.add('call', digest(out))
         exp = run(self.build(st.cfg, st.scene))
         _cmp(st, 'call', out, exp, what=f'call on image {op["image"]} '
